@@ -405,6 +405,9 @@ class Items:
             if is_id(i, "enum"):
                 name = toks[i + 1].s
                 j = skip_generics(i + 2)
+                if is_id(j, "where"):
+                    while j < n and not is_p(j, "{"):
+                        j += 1
                 if not is_p(j, "{"):
                     raise ShapeError(f"{where}: cannot read enum {name}")
                 variants = []
@@ -1068,6 +1071,16 @@ class Parser:
                     self.fail("attribute expected")
                 self.i = self.mt[self.i] + 1
                 continue
+            if self.at_id("const") and self.at_id(None, 1) and self.at_p(":", 2):
+                self.i += 1
+                cname = self.eat_id()
+                self.eat_p(":")
+                cty = self.type()
+                self.eat_p("=")
+                cinit = self.expr()
+                self.eat_p(";")
+                stmts.append(("const", cname, cty, cinit))
+                continue
             if self.at_id("let"):
                 self.i += 1
                 pat = self.pattern()
@@ -1106,7 +1119,7 @@ class Parser:
                 stmts.append(("while", cond, self.block()))
                 continue
             e = self.expr()
-            blocklike = e[0] in ("if", "match", "block", "iflet")
+            blocklike = e[0] in ("if", "match", "block", "iflet", "unsafe", "loop")
             if self.at_p(";"):
                 self.i += 1
                 stmts.append(("expr", e))
@@ -1129,8 +1142,28 @@ class Parser:
         if t.k == "str":
             self.i += 1
             return ("str", t.v)
+        if t.k == "bstr" and t.s.startswith('b"'):
+            self.i += 1
+            body, out, j = t.s[2:-1], [], 0
+            while j < len(body):
+                if body[j] == "\\":
+                    if body[j + 1] == "x":
+                        out.append(int(body[j + 2:j + 4], 16))
+                        j += 4
+                    else:
+                        table = {"n": 10, "r": 13, "t": 9, "0": 0, "\\": 92, "'": 39, '"': 34}
+                        if body[j + 1] not in table:
+                            self.fail(f"unknown escape in byte string")
+                        out.append(table[body[j + 1]])
+                        j += 2
+                else:
+                    if ord(body[j]) > 127:
+                        self.fail("non-ASCII character in a byte string")
+                    out.append(ord(body[j]))
+                    j += 1
+            return ("bytestr", out)
         if t.k in ("char", "bstr"):
-            self.fail("char / byte-string literals are outside the subset")
+            self.fail("char / raw byte-string literals are outside the subset")
         if t.k == "p" and t.s == "(":
             self.i += 1
             if self.at_p(")"):
@@ -1264,13 +1297,18 @@ class Parser:
                 j = self.i + 1
                 inner = self.t[j + 1:self.mt[j]]
                 self.i = self.mt[j] + 1
-                if self.items is not None and segs[0] in self.items.macros:
+                if self.items is not None and segs[0] in self.items.macros and \
+                        segs[0] not in ("trace", "debug", "warn", "info", "error"):
                     out = expand_macro(self.items, segs[0], inner, f"{self.where}: {segs[0]}!")
                     p = Parser(out, f"{self.where}: {segs[0]}!", self.items)
                     e = p.expr()
                     if not p.done():
                         p.fail("macro expansion is not a single expression")
                     return e
+                if segs[0] == "assert":
+                    parts = split_commas(inner, self.where)
+                    cond = parse_expr(parts[0], f"{self.where}: assert!", self.items)
+                    return ("assert", cond, stringify(parts[0]))
                 return ("macro", segs[0], inner)
             if self.at_p("{") and not nostruct and segs[-1][0].isupper() and self._looks_like_struct_lit():
                 self.i += 1
@@ -1301,6 +1339,25 @@ class Parser:
         if a.k == "id" and b is not None and b.k == "p" and b.s in (":", ",", "}"):
             return True
         return False
+
+
+def stringify(toks):
+    """the text rustc's `stringify!` gives for an expression (used in `assert!` messages)"""
+    out = ""
+    tight_before = {".", ",", ";", ")", "]", "?", "(", "["}
+    tight_after = {".", "(", "[", "!", "&"}
+    prev = None
+    for t in toks:
+        if prev is None:
+            out += t.s
+        elif t.s in tight_before and not (t.s in ("(", "[") and prev.k == "p" and prev.s not in (")", "]")):
+            out += t.s
+        elif prev.s in tight_after and prev.k == "p":
+            out += t.s
+        else:
+            out += " " + t.s
+        prev = t
+    return out
 
 
 def parse_fn_body(decl, items):
